@@ -249,7 +249,7 @@ theorem C12_switch_attempts (P : Program) (val : Node → Option Val) (hsw : SwP
     (∀ n inv k kw, Obs.body n inv k kw ∈ log → 1 ≤ k ∧ k ≤ (P.cfg n).attemptsEff ∧
       ∀ j, 1 ≤ j → j < k → Retry.decide (P.cfg n) j (P.body n kw 0 j) = .retry) ∧
     (∀ n kw, Obs.dflt n kw ∈ log → kw = kwFrom P val n ∧ finalOf P n (kwFrom P val n) = some .default) := by
-  have hall := (safe_exec hsw hsol h).2
+  have hall := (safe_exec_sw hsw hsol h).2
   refine ⟨?_, ?_⟩
   · intro n inv k kw hm
     have a : Att P val n k kw inv := hall _ hm
